@@ -269,7 +269,7 @@ pub fn hang_safe(case: &Case) -> bool {
             }
         }
     }
-    let budget = 300 + 8 * c.model.int_points().min(4096);
+    let budget = crate::worlds::read_budget(&c.model);
     let probe = |entry| {
         let cfg = RunCfg {
             entry,
